@@ -330,3 +330,33 @@ package m3
 //@   modifies r.tagCache.entries, r.stringInterner.entries
 //@   ensures @handle_of_the_allocation is(result, cachedMetric) && handleOf(dyn(result, cachedMetric), r, name, tags) && dyn(result, cachedMetric).metric.Value.MetricType == m3thrift.MetricType_TIMER && dyn(result, cachedMetric).metric.Value.Timer == 9223372036854775807
 //@   ensures @quiet quiet()
+
+// ---------------------------------------------------------------------------
+// C13: histogram allocation.  One handle per bucket, in bucket order; bucket i
+// carries the id rendered from i (a fixed-width decimal format, so ids increase
+// with the bounds), its own upper bounds, the range name "lower-upper" with
+// lower = the previous bucket's upper bound, and a metric with the histogram's
+// name and exactly the allocated tags.
+
+//@ pure method tally.BucketPair.UpperBoundDuration
+
+//@ func ndigits
+//@   property C13
+//@   ensures @quiet quiet()
+//@   loop 1 invariant @quiet quiet()
+
+//@ func (*reporter).valueBucketString
+//@   property C13
+//@   requires r != nil
+//@   ensures @pos_inf v == math.MaxFloat64 ==> result == "infinity"
+//@   ensures @neg_inf v == -math.MaxFloat64 ==> result == "-infinity"
+//@   ensures @other v != math.MaxFloat64 && v != -math.MaxFloat64 ==> result == sprintf(r.bucketValFmt, v)
+//@   ensures @quiet quiet()
+
+//@ func (*reporter).durationBucketString
+//@   property C13
+//@   requires r != nil
+//@   ensures @zero d == 0 ==> result == "0"
+//@   ensures @pos_inf d == 9223372036854775807 ==> result == "infinity"
+//@   ensures @neg_inf d == -9223372036854775808 ==> result == "-infinity"
+//@   ensures @quiet quiet()
